@@ -800,6 +800,11 @@ def gen_case(rng, group, kind, idx, tier, lcycle):
         t = [F(rng.randint(-48, 48), 16) for _ in range(3)]
     big = group == "eri"
     lmax_cap = (2 if tier == "quick" else 3) if big else 4
+    dsub = None
+    if group == "density":
+        dsub = rng.choice(["grad", "ked", "stress"]) if tier == "quick" else "all"
+        if dsub == "stress":
+            lmax_cap = 3      # quick tier: the Ehrenfest Hessian of a spherical g shell costs ~10 s (1600 evaluate_deriv_basis calls)
     nsh = rng.choice([1, 2, 2, 3]) if big else rng.choice([1, 2, 2, 3, 3, 4])
     general = rng.random() < 0.7
     mode = rng.random()
@@ -814,6 +819,8 @@ def gen_case(rng, group, kind, idx, tier, lcycle):
             else:
                 centres[0] = [F(0)] * 3
         npts = rng.randint(2, 5) if group in ("eval", "deriv", "density", "esp") else 0
+        if dsub == "stress":
+            npts = 2
         points = [_coord(rng, unit, 3.0) for _ in range(npts)]
         ncharge = rng.randint(1, 3) if group in ("int2", "esp") else 0
         chg = [_coord(rng, unit, 3.0) for _ in range(ncharge)]
@@ -866,7 +873,7 @@ def gen_case(rng, group, kind, idx, tier, lcycle):
         case["orders"] = orders
         case["deriv_type"] = "direct" if (rng.random() < 0.3 and all(max(o) <= 2 for o in orders)) else "general"
     elif group == "density":
-        case["sub"] = rng.choice(["grad", "ked", "stress"]) if tier == "quick" else "all"
+        case["sub"] = dsub
         nmax = 3 if signed else 2
         case["orders"] = [list(rng.choice(all_orders(rng.randint(1, nmax))))]
         case["alpha"] = str(F(rng.choice([-2, -1, 1, 2, 3]), 4))
